@@ -771,11 +771,14 @@ def cpu_number_marker(ops, verdict):
     for o in ops[:last_open + 1]:
         f = o.split(":")
         if f[0] == "R" and len(f) >= 4:
-            refs[(f[1], f[2])] = f[3]
+            refs[f[2]] = f[3]                       # reference slots are shared by the contexts of a case
         elif f[0] == "S" and len(f) >= 5 and f[2] in keys and f[3] == "n":
             vals.append(f[4])
-        elif f[0] == "RS" and len(f) >= 5 and f[3] == "n" and refs.get((f[1], f[2])) in keys:
+        elif f[0] == "RS" and len(f) >= 5 and f[3] == "n" and refs.get(f[2]) in keys:
             vals.append(f[4])
+        elif f[0] == "SS" and len(f) >= 6 and f[4] == "n" and f[2] in refs and \
+                (refs[f[2]] + "2e" + f[3]) in keys:   # set through a sub-path of a reference (cpu + number)
+            vals.append(f[5])
     if not vals:
         return ""
     try:
